@@ -124,6 +124,9 @@ func c02Run(c *vk.Ctx) {
 					if rc.AddrType == 3 {
 						c.Count("domain_targets", 1)
 					}
+					if o.LnClosedMid {
+						c.Count("relays_outliving_their_listener", 1)
+					}
 				} else {
 					smu.Lock()
 					stop = true
@@ -150,7 +153,7 @@ func init() {
 	vk.Register(&vk.Spec{
 		ID:          "C02",
 		Level:       "exploration",
-		Rule:        "each case is one authenticated exchange through the real StreamServe/stream handler on real sockets: cipher, address type (1/3 via scripted DNS/4), payload sizes 0..1 MiB each way, chunk-size lists (1..16383, address alone or coalesced, zero-length chunks), first TCP write cut around the 50-byte key-search prefix with pauses, who speaks first, who half-closes first (client-fin-first / target-fin-first with data after the peer's FIN / concurrent), recording-wrapper or raw *net.TCPConn (ReadFrom/WriteTo fast paths), client over IPv4 or IPv6; class = tuple of those buckets",
+		Rule:        "each case is one authenticated exchange through the real StreamServe/stream handler on real sockets: cipher, address type (1/3 via scripted DNS/4), payload sizes 0..1 MiB each way, chunk-size lists (1..16383, address alone or coalesced, zero-length chunks), first TCP write cut around the 50-byte key-search prefix with pauses, who speaks first, who half-closes first (client-fin-first / target-fin-first with data after the peer's FIN / concurrent), recording-wrapper or raw *net.TCPConn (ReadFrom/WriteTo fast paths), client over IPv4 or IPv6, the connection's listener closed once the relay is established (1 in 10); class = tuple of those buckets",
 		Assumptions: []string{"B = 15 s bounded-progress restatement for 'arrives' (normal < 50 ms)", "6 exchanges run concurrently per child"},
 		Batches:     func(t string) int { return map[string]int{"quick": 6, "thorough": 24}[t] },
 		Parallel:    func(t string) int { return 6 },
@@ -162,6 +165,7 @@ func init() {
 			c.Require("mode_concurrent")
 			c.Require("domain_targets")
 			c.Require("slow_exchanges_longer_than_handshake_timeout")
+			c.Require("relays_outliving_their_listener")
 			c02Run(c)
 		},
 	})
